@@ -2,9 +2,13 @@ import IcyVerif.Drv.Codec
 import IcyVerif.Drv.ColorOpt
 import IcyVerif.Drv.Comp
 import IcyVerif.Drv.Crc
+import IcyVerif.Drv.Font
 import IcyVerif.Drv.IcyDraw
 import IcyVerif.Drv.Palette
+import IcyVerif.Drv.Sauce
+import IcyVerif.Drv.Tdf
 import IcyVerif.Drv.Term
+import IcyVerif.Drv.Uni
 import IcyVerif.Drv.XbCompress
 open IcyVerif.Drv
 
@@ -14,9 +18,13 @@ def dispatch (line : String) : String :=
   | "coloropt" :: rest => ColorOpt.handle rest
   | "comp" :: rest => Comp.handle rest
   | "crc" :: rest => Crc.handle rest
+  | "font" :: rest => Font.handle rest
   | "icydraw" :: rest => IcyDraw.handle rest
   | "palette" :: rest => Palette.handle rest
+  | "sauce" :: rest => Sauce.handle rest
+  | "tdf" :: rest => Tdf.handle rest
   | "term" :: rest => Term.handle rest
+  | "uni" :: rest => Uni.handle rest
   | "xbcompress" :: rest => XbCompress.handle rest
   | _ => "bad-op"
 
